@@ -167,7 +167,7 @@ class _TextSink(io.StringIO):
     buffer = None
 
 
-def run_cli(argv, stdin_bytes):
+def run_cli(argv, stdin_bytes, seekable=True):
     """cli.main with stdin/stdout/stderr replaced and the JSON report captured. Returns
     (rc, stdout_bytes, stdout_text, json_text)"""
     out_bin = Collector()
@@ -211,7 +211,7 @@ def run_cli(argv, stdin_bytes):
         return JsonFile()
 
     saved = (sys.stdin, sys.stdout, sys.stderr)
-    sys.stdin, sys.stdout, sys.stderr = _Std(SymStream(stdin_bytes)), Out(), Err()
+    sys.stdin, sys.stdout, sys.stderr = _Std(SymStream(stdin_bytes, seekable=seekable)), Out(), Err()
     A.open = fake_open
     try:
         try:
